@@ -129,6 +129,16 @@ theorem literal_vector_cast_panics (cx : Ctx) (e : VExpr) (a : VAExpr) (n : Nat)
     exact ⟨"generate_scalar_type: literal type should not be required on output",
       by simp [genV, hg, vtypeName, typeName, scalarKey, scalarTypeName]⟩
 
+/-- the constants outside the evaluated subset (64-bit integers, 16- and 64-bit floats) go — unconditionally, first matching
+arm — to the literal of the *same* kind carrying the *same* payload (`.plain k` = `Literal::k(v)`), and `half` / `double`
+are the names of the 16- / 64-bit float types: the literal and scalar-type tables (re-extracted on every run) keep kind and
+width for them.  (Their arithmetic is not modelled; this is the part of the property that is a table fact.) -/
+theorem wide_constants_keep_kind_and_payload :
+    (∀ v, findArm .Int64 v = some (.plain .IntSigned64)) ∧ (∀ v, findArm .UInt64 v = some (.plain .IntUnsigned64)) ∧
+    (∀ v, findArm .Float16 v = some (.plain .Float16)) ∧ (∀ v, findArm .Float64 v = some (.plain .Float64)) ∧
+    scalarTypeName.lookup "Float16" = some (some "half") ∧ scalarTypeName.lookup "Float64" = some (some "double") := by
+  refine ⟨?_, ?_, ?_, ?_, by decide, by decide⟩ <;> intro v <;> simp [findArm, literalArms, guardHolds]
+
 /-! ## non-vacuity -/
 
 /-- `(float3)(float)l0 + float3(ll, l0.zx)`-like: cast chain, constructor with a scalar leaf and a swizzle slot, a
